@@ -486,6 +486,7 @@ func init() {
 		Explanation: "Decided (exhaustiveness and coverage of the recursive conversion): V1 every implementer of the standard types.Type (enumerated from go/types' own type information) has a converting arm in Converter.typ or is one of four excluded kinds with a stated reason (Tuple, TypeParam, Union, Alias), and each arm, followed into its mk* helper, reads every defining component of its kind (" + strings.Join(impl, ", ") + ": element, key, length, direction, fields and tags, receiver/params/results/variadic, explicit methods and embedded types, object/underlying/methods); " +
 			"the object switch converts Const, Func, TypeName and Var (the other implementers of types.Object cannot be exported package members) and each object helper takes position, package, name, type (and constant value / embedded flag) from its source object; " +
 			"V2 order: the conversion cache is consulted before converting and filled afterwards; a named type is cached before its underlying type is converted (recursive types) and queued for method conversion when it has methods; every method is added; Package converts every name of the scope, then completes interfaces, then adds methods; V3 inside every counting loop of the converter, component i of the source (g.Field(i), g.Tag(i), g.At(i), g.ExplicitMethod(i), g.EmbeddedType(i), g.Method(i)) is stored as component i of the result, and no return precedes the conversion of a non-nil package's scope. " +
+			"E4m a map literal keyed by a small enumeration has an entry for every constant of the key type; V4k the cache of converted packages is indexed by import path. " +
 			"Not decided: equality of the converted package with the original (printed forms, method sets).",
 		Assumptions: []string{"go/types of the installed toolchain: set of implementers of types.Type and types.Object", "table of defining components per kind of type (in the checker source)"},
 		Rules: []func(*Ctx){func(c *Ctx) {
@@ -498,6 +499,7 @@ func init() {
 		}},
 		Technique: "AST/type-resolved custom analysis: exhaustiveness of a type switch over the implementers of an interface (from go/types), getter coverage per arm, call-order checks",
 		Mutants: []Mutant{
+			{Name: "package-cache-keyed-by-name", File: "go/types/converter.go", Old: "\tpath := g.Path()\n\tif p := c.pkg[path]; p != nil {", New: "\tpath := g.Name()\n\tif p := c.pkg[path]; p != nil {"},
 			{Name: "struct-tags-dropped", File: "go/types/converter.go", Old: "\t\ttags[i] = g.Tag(i)\n", New: "", Canary: true},
 			{Name: "tags-appended-only-when-present", File: "go/types/converter.go", Old: "\t\ttags[i] = g.Tag(i)\n", New: "\t\tif tag := g.Tag(i); tag != \"\" {\n\t\t\ttags = append(tags[:0:0], append(tags, tag)...)\n\t\t}\n"},
 			{Name: "package-returned-from-stub", File: "go/types/converter.go", Old: "\tc.cache = typeutil.Map{}\n\tp := c.mkpackage(g)\n", New: "\tif p := c.pkg[g.Path()]; p != nil {\n\t\treturn p\n\t}\n\tc.cache = typeutil.Map{}\n\tp := c.mkpackage(g)\n"},
